@@ -1592,3 +1592,92 @@ type Ctl struct {
 		symxAssert(err != nil, "C10.front.inconsistent-route-is-rejected")
 	}
 }
+
+// C06 through the front end, response annotations: explicit success codes on both return shapes, repeated and
+// clashing error codes
+func vh_C06_front_responses_Q() {
+	hasValue := symxBool("hasValue")
+	respAnn := []string{"", "// @Response(200) fine\n", "// @Response(204) nothing\n", "// @Response(202) later\n"}[symxChoice("response", 4)]
+	errAnn := []string{"", "// @ErrorResponse(404) missing\n", "// @ErrorResponse(404) missing\n// @ErrorResponse(409) clash\n", "// @ErrorResponse(500) boom\n"}[symxChoice("errors", 4)]
+	sig, ret := "error", "return nil"
+	if hasValue {
+		sig, ret = "(Model, error)", "return Model{}, nil"
+	}
+	src := `package ctl
+
+import "github.com/gopher-fleece/runtime"
+
+type Model struct {
+	X string
+}
+
+// @Route(/c)
+type Ctl struct {
+	runtime.GleeceController
+}
+
+// @Method(GET)
+// @Route(/op)
+` + respAnn + errAnn + `func (c *Ctl) Op() ` + sig + ` {
+	` + ret + `
+}
+`
+	fr, err := visitors.VhLoadSource(src, nil)
+	symxAssert(err == nil, "C06.front.fixture-loads")
+	if err != nil {
+		return
+	}
+	meta, err := pipeline.VhNewPipeline(fr, vhFrontConfig()).Run()
+	if err != nil {
+		symxRecord("refused", "yes")
+	}
+	symxAssert(err == nil, "C06.front.project-is-accepted")
+	if err != nil {
+		return
+	}
+	doc30, doc31 := vhNewDoc30(), vhNewDoc31()
+	cfg := &definitions.OpenAPIGeneratorConfig{}
+	symxAssert(swagen30.GenerateModelsSpec(doc30, &meta.Models) == nil && swagen31.GenerateModelsSpec(doc31, &meta.Models) == nil, "C06.front.models-no-error")
+	symxAssert(swagen30.GenerateControllersSpec(doc30, cfg, meta.Flat) == nil && swagen31.GenerateControllersSpec(doc31, cfg, meta.Flat) == nil, "C06.front.documents-no-error")
+	ops30, ops31 := vhOps30(doc30), vhOps31(doc31)
+	symxAssert(len(ops30) == 1 && len(ops31) == 1, "C06.front.one-operation")
+	if len(ops30) != 1 || len(ops31) != 1 {
+		return
+	}
+	symxCover("C06.front.responses-documented")
+	success := "204"
+	if hasValue {
+		success = "200"
+	}
+	switch {
+	case strings.Contains(respAnn, "(200)"):
+		success = "200"
+	case strings.Contains(respAnn, "(204)"):
+		success = "204"
+	case strings.Contains(respAnn, "(202)"):
+		success = "202"
+	}
+	var errCodes []string
+	for _, c := range []string{"404", "409", "500"} {
+		if strings.Contains(errAnn, "("+c+")") {
+			errCodes = append(errCodes, c)
+		}
+	}
+	for vi, d := range []vhOpDetail{vhDetail30(&ops30[0]), vhDetail31(&ops31[0])} {
+		ver := []string{"30", "31"}[vi]
+		symxAssert(len(d.responses) == 1+len(errCodes), "C06.front."+ver+".success-and-declared-error-responses-only")
+		sr := vhRespFind(d.responses, success)
+		symxAssert(sr != nil && sr.hasDesc, "C06.front."+ver+".success-code")
+		if sr != nil {
+			if hasValue {
+				symxAssert(sr.hasContent && sr.contentRef == "#/components/schemas/Model", "C06.front."+ver+".success-schema-of-the-value-type")
+			} else {
+				symxAssert(!sr.hasContent, "C06.front."+ver+".no-content-without-a-value")
+			}
+		}
+		for _, c := range errCodes {
+			er := vhRespFind(d.responses, c)
+			symxAssert(er != nil && er.hasDesc && er.hasContent && er.contentRef == "#/components/schemas/"+definitions.Rfc7807ErrorName, "C06.front."+ver+".error-response-with-the-error-type's-schema")
+		}
+	}
+}
